@@ -902,3 +902,61 @@ def q_orphans(cfg, parts=('7', '8', '9')):
     if '9' in parts:
         res.floor('quiescent-state functions', 1)
     return res
+
+
+def q_tagging(cfg):
+    """Q-11: a request joins the current-interval list only in the epoch the thread has caught up with"""
+    res = RuleResult('Q-11', 'a request is appended to a thread\'s current-interval list only on paths on which the thread\'s last_seen_epoch has just been compared EQUAL to the global epoch read in the same call (the unequal case goes through advance_last_seen_epoch with the fresh epoch and the new request): a request filed under a stale epoch ages one epoch change too few and is freed while a thread that was active when it was made may still hold the object')
+    n = 0
+    for f in cfg.functions:
+        if not f.blocks or f.cls != PT:
+            continue
+        inits = {}
+        for b, i, e in f.elements():
+            if e.get('k') == 'decl':
+                for v in e['vars']:
+                    if 'init' in v:
+                        inits[v['did']] = v['init']
+
+        def fresh_epoch(o, depth=0):
+            """is the operand the global epoch read from the QSBR state word in this function"""
+            x = f.strip_casts(o)
+            if not isinstance(x, dict) or depth > 6:
+                return False
+            if x.get('k') == 'call' and x.get('ck') == 'ctor' and x.get('copy') and x.get('args'):
+                return fresh_epoch(x['args'][0], depth + 1)
+            if x.get('k') == 'ref' and x.get('vk') == 'local' and x['did'] in inits:
+                return fresh_epoch(inits[x['did']], depth + 1)
+            if x.get('k') == 'call' and x.get('name') == 'get_epoch' and x.get('args'):
+                a = f.strip_casts(x['args'][0])
+                if isinstance(a, dict) and a.get('k') == 'ref' and a.get('did') in inits:
+                    a = f.strip_casts(inits[a['did']])
+                return isinstance(a, dict) and a.get('k') == 'call' and a.get('name') == 'get_state'
+            return False
+
+        def is_last_seen(o):
+            x = f.strip_casts(o)
+            while isinstance(x, dict) and x.get('k') == 'call' and x.get('ck') == 'ctor' and x.get('copy') and x.get('args'):
+                x = f.strip_casts(x['args'][0])
+            return isinstance(x, dict) and x.get('k') == 'member' and x.get('name') == 'last_seen_epoch' and isinstance(f.strip_casts(x['base']), dict) and f.strip_casts(x['base']).get('k') == 'this'
+        for b, i, e in f.elements():
+            if is_assert_elem(e) or e.get('k') != 'call' or e.get('name') not in ('emplace_back', 'push_back', 'insert') or e.get('obj') is None:
+                continue
+            o = f.strip_casts(e['obj'])
+            if not (isinstance(o, dict) and o.get('k') == 'member' and o.get('name') == 'current_interval_dealloc_requests'):
+                continue
+            n += 1
+            res.functions.add(f.sig)
+            ok = False
+            for c, val, cb in control_conditions(f, b):
+                if isinstance(c, dict) and c.get('k') == 'call' and c.get('ck') == 'op' and c.get('op') in ('==', '!=') and len(c.get('args', [])) == 2:
+                    eq = val if c['op'] == '==' else (not val)
+                    a0, a1 = c['args']
+                    if eq and ((is_last_seen(a0) and fresh_epoch(a1)) or (is_last_seen(a1) and fresh_epoch(a0))):
+                        ok = True
+            res.ob(ok, {'rule': 'Q-11', 'function': sh(f.name), 'site': fileline(e.get('loc')), 'fact': 'append to the current-interval list is control-dependent on last_seen_epoch == fresh global epoch', 'verdict': 'discharged' if ok else 'VIOLATION'})
+            if not ok:
+                res.find(f, e.get('loc'), 'a request is appended to current_interval_dealloc_requests on a path on which last_seen_epoch is not known to equal the global epoch just read: if the epoch has moved on, the request is filed (and later rotated) one epoch too old and is freed one epoch change early - while a thread that passed its quiescent state before the request was made may still reference the object', key='Q-11:stale-epoch-append', config=cfg.name)
+    res.count('appends to the current-interval list', n)
+    res.floor('appends to the current-interval list', 1)
+    return res
